@@ -90,12 +90,12 @@ type Struct struct {
 type ConstKind int
 
 const (
-	CInt ConstKind = iota // Text holds the literal (decimal or 0x…)
-	CDouble               // Text holds the literal
-	CString               // Text holds the raw content, Quote the quote character
-	CIdent                // Text holds the (possibly qualified) identifier
-	CList                 // Items
-	CMap                  // Items = k0 v0 k1 v1 …   (also struct literals: keys are CString field names)
+	CInt    ConstKind = iota // Text holds the literal (decimal or 0x…)
+	CDouble                  // Text holds the literal
+	CString                  // Text holds the raw content, Quote the quote character
+	CIdent                   // Text holds the (possibly qualified) identifier
+	CList                    // Items
+	CMap                     // Items = k0 v0 k1 v1 …   (also struct literals: keys are CString field names)
 )
 
 // Const is a constant expression together with the value the generator means by it.
